@@ -114,7 +114,13 @@ fn main() {
                 std::process::exit(2);
             };
             let log = !args.iter().any(|a| a == "--quiet");
-            println!("replaying {} ({} draws) for {} class {}", r.scenario, r.tape.len(), r.property, r.class);
+            // A violation found with the release-like profile replays with it.
+            let rel = orch::simrel_exe();
+            if r.profile == "simrel" && std::env::current_exe().ok().as_deref() != Some(rel.as_path()) && rel.exists() {
+                let st = std::process::Command::new(rel).args(&args[1..]).status().expect("run the simrel build");
+                std::process::exit(st.code().unwrap_or(2));
+            }
+            println!("replaying {} ({} draws, profile {}) for {} class {}", r.scenario, r.tape.len(), r.profile, r.property, r.class);
             if r.class == "hang" {
                 // The violation is "never finishes": a watchdog thread decides.
                 let (prop, path) = (r.property.clone(), path.clone());
